@@ -952,6 +952,24 @@ def r_enumerate(text, ctx):
     return text
 
 
+def _tail_self_call(inner):
+    """the body's tail expression is ONE call `self.method( .. )` (arguments may span lines and contain struct literals)"""
+    if not inner.endswith(")"):
+        return False
+    depth = 0
+    for k in range(len(inner) - 1, -1, -1):
+        c = inner[k]
+        if c in ")]}":
+            depth += 1
+        elif c in "([{":
+            depth -= 1
+            if depth == 0:
+                head = inner[:k]
+                m = re.search(r"(^|[;}])\s*self\s*\.\s*[a-z_][a-z0-9_]*\s*$", head)
+                return bool(m) and c == "("
+    return False
+
+
 def r_retself(text, ctx):
     """R-retself: `-> &mut Self { ...; self }`  ->  `{ ...; }`.  The chaining return value (an alias of the receiver) is dropped."""
     header, body = fn_split(text)
@@ -962,7 +980,7 @@ def r_retself(text, ctx):
     inner = body[1:close].rstrip()
     if re.search(r"(^|[;}\s])self$", inner):
         inner = inner[:-4].rstrip()
-    elif re.search(r"\bself\.[a-z_]+\([^;{}]*\)$", inner):
+    elif re.search(r"\bself\.[a-z_]+\([^;{}]*\)$", inner) or _tail_self_call(inner):
         inner = inner + ";"     # tail call of another chaining method on self (itself rewritten to return ())
     else:
         raise LostAnchor(ctx.key + ": R-retself: body does not end in `self` or a chaining call")
